@@ -221,12 +221,15 @@ A check that is right was never loosened; these were errors of the machinery and
 Each change was produced by a sub-agent that saw only the property text, compiles, passes the crate's test
 suite, and was confirmed here in a scratch worktree (`tools/confirm_seed*.sh`: tests pass with the change, the
 demonstration fails with it and passes without). `tools/seedtest.sh <patch> Cxx` applies it to /repo, runs the
-check, and reverts. Two rounds were run (m1/m2, then m3/m4 by agents that were also told what had already been
-found, so that they would look elsewhere): 80 changes; `tools/seedregress.sh` re-runs all of them against the current checks: 79 are caught, one (C12-m2)
-no longer breaks the property since a later repair of /repo and is rightly not reported. The first version of
-the checks missed 6 of the first 40 and 19 of the second 40; every miss led to a stronger generator or oracle
-(marked *strengthened*), never to a special case for the seed, and four of those strengthenings exposed genuine
-defects of the unchanged code (D50, D51, D52 and, through the agents' side remarks, D53..D55).
+check, and reverts. Three rounds were run (m1/m2; then m3/m4 and m5/m6 by agents that were also told what had
+already been found, so that they would look elsewhere): 120 changes; `tools/seedregress.sh` re-runs them against
+the current checks (`seeded/<id>/check.json`): all are caught except C12-m2, which no longer breaks the property
+since a later repair of /repo and is rightly not reported. The first version of the checks missed 6 of the first
+40, 19 of the second 40 and 14 of the third 40; every miss led to a stronger generator or oracle (marked
+*strengthened* / "closed by"), never to a special case for the seed, and several of those strengthenings exposed
+genuine defects of the unchanged code (D50, D51, D52, D58 and, through the agents' side remarks, D53..D55 and
+D59..D62). Seeds reported *without a failing input* (the model or a proof obligation stops matching, no oracle
+fires) are marked so: for those the replay names the correspondence that no longer checks.
 '''
 
 def section9():
@@ -246,6 +249,8 @@ def section9():
                "C14-m3, C15-m4, C16-m4, C17-m4, C19-m3, C19-m4, C20-m3, C20-m4 (caught only through a broken obligation, "
                "without a failing input, at first: C02-m4, C07-m3, C09-m4). What was added is listed per property under "
                "'Explored by the tie ... ALSO' in section 6.\n")
+    out.append("\n*Round 3, missed at first:* C01-m6, C03-m6, C04-m6, C08-m6, C10-m5, C10-m6, C13-m5, C14-m5, C14-m6, C15-m5, "
+               "C15-m6, C19-m6, C20-m5, C20-m6 (what closed each is in its row).\n")
     out.append("\n*Strengthened after a miss:* C01-m1 (store-raw boundary units added to the generator), C07-m1 (sources with "
                "external / partial listfiles), C08-m2 (digest-field cases), C12-m2 (dirty compaction variant), C20-m2 (BLP "
                "sub-commands), C11 (separate edge archive). C19-m2 is a lock-order inversion whose demonstration is "
@@ -268,11 +273,10 @@ TAIL = r'''
   codecs (framing, selector and limit logic and the in-tree sparse codec are modelled and proved); C05 totality is established by running the parsers (sampling), the theorems
   cover the front loops and the allocation rule; C09 the rayon runtime; C10 collision resistance of MD5,
   RSA, multi-byte checksum collisions; C12 real crash injection is by strace fault injection on the syscall
-  trace, not power loss; C13 lights, emitters, colour / texture animations, bone rotations and anim files are not generated;
+  trace, not power loss; C13 lights, emitters, colour / texture animations and bone rotations are not generated (.anim files only as parser input in C05);
   C14/C15/C13 whole-file content preservation is an oracle (needs the real parsers), the theorems cover
   the derived data (offset tables, string tables, relocation); C15 group content cannot be parsed back by the
-  crate; C16 lossy pixel content; C19 scheduling (lock graph + stress with watchdog instead); C20 only the
-  sub-commands with generators.
+  crate; C16 lossy pixel content; C19 scheduling (lock graph + stress with watchdog instead); C20 conversion sub-commands other than `blp convert` and `mpq create/extract` are not driven.
 * Hooks: none were needed (`MANIFEST.hooks.source_commits` is empty); every entry point used is public.
 '''
 
